@@ -87,12 +87,23 @@ func nestedScopes(name string, tier string, boundary func(x *apix.Exec, kind str
 func init() {
 	hx.Registry["c07-life"] = func(tier string) []*hx.Scope { return lifeScopes("c07-life", tier, false, boundaryC07) }
 	hx.Registry["c07-nested"] = func(tier string) []*hx.Scope { return nestedScopes("c07-nested", tier, boundaryC07) }
+	// the same exploration with every map iteration of the code under test in descending order
+	hx.Registry["c07-nested-desc"] = func(tier string) []*hx.Scope {
+		scs := nestedScopes("c07-nested-desc", "quick", boundaryC07)
+		for _, s := range scs {
+			s.MapDesc = true
+			if tier != "thorough" {
+				s.MaxOps = 4
+			}
+		}
+		return scs
+	}
 }
 
 // C07: page accounting after every commit, rollback and reopen.
 func C07(tier string) int {
 	return RunHX(HXCheck{
-		Prop: "C07", Level: "model_checking", Scopes: []string{"c07-life", "c07-nested", "c07-fault"},
+		Prop: "C07", Level: "model_checking", Scopes: []string{"c07-life", "c07-nested", "c07-fault", "c07-nested-desc"},
 		Rule: "breadth-first enumeration of all programs within the bound (write transactions with page-freeing bodies, nested bucket create/delete/move, readers of different ages, rollbacks, reopen with other freelist backend / sync setting) from each seed and configuration; after every commit, rollback, failed commit (scope c07-fault: every single I/O failure of every commit, with a reader held across) and reopen the independent decoder boltfmt must classify every page below the high-water mark as exactly one of meta / freelist / reachable once / listed free once, with ordered keys and in-page elements, and Stats, Tx.Page and Tx.Check must agree; a state is a distinct exact state key",
 		Assumptions: []string{"boltfmt implements the published version-2 layout (cross-checked against the API dump and the reference model on every state)",
 			"bounded alphabets; page sizes 1024 (quick) and 1024/4096/16384 (thorough)"},
